@@ -70,6 +70,9 @@ trait HQ: Sized + Clone {
     fn de_value(v: serde_json::Value) -> Result<Self, String>;
     /// serde's own MapDeserializer over the pairs (it announces its length)
     fn de_map(v: Vec<(K, P)>) -> Result<Self, String>;
+    /// a sequence deserializer that announces `hint` elements (a hint, not a promise:
+    /// it may be smaller or larger than what is delivered)
+    fn de_hinted(v: Vec<(K, P)>, hint: usize) -> Result<Self, String>;
     /// `Deserialize::deserialize_in_place` into an existing queue
     fn de_in_place(&mut self, v: serde_json::Value) -> Result<(), String>;
     fn roundtrip(self) -> Self;
@@ -92,6 +95,20 @@ impl Iterator for Hinted {
     }
     fn size_hint(&self) -> (usize, Option<usize>) {
         (self.lo, self.hi)
+    }
+}
+
+struct HintedValues {
+    it: std::vec::IntoIter<serde_json::Value>,
+    hint: usize,
+}
+impl Iterator for HintedValues {
+    type Item = serde_json::Value;
+    fn next(&mut self) -> Option<serde_json::Value> {
+        self.it.next()
+    }
+    fn size_hint(&self) -> (usize, Option<usize>) {
+        (self.hint, Some(self.hint))
     }
 }
 
@@ -200,6 +217,14 @@ macro_rules! common {
         fn de_in_place(&mut self, v: serde_json::Value) -> Result<(), String> {
             use serde::Deserialize;
             Self::deserialize_in_place(v, self).map_err(|e| e.to_string())
+        }
+        fn de_hinted(v: Vec<(K, P)>, hint: usize) -> Result<Self, String> {
+            use serde::de::value::SeqDeserializer;
+            use serde::Deserialize;
+            let vals: Vec<serde_json::Value> = v.iter().map(|e| serde_json::to_value(e).unwrap()).collect();
+            let it = HintedValues { it: vals.into_iter(), hint };
+            let d: SeqDeserializer<_, serde_json::Error> = SeqDeserializer::new(it);
+            Self::deserialize(d).map_err(|e| e.to_string())
         }
         fn de_map(v: Vec<(K, P)>) -> Result<Self, String> {
             use serde::de::value::{Error, MapDeserializer};
@@ -732,6 +757,12 @@ fn serde_checks<Q: HQ>(q: &Q, r: &mut Ref, cfg: Cfg, seed: u64, log: &mut Vec<St
         de_result_ok(Q::de_text(&serde_json::to_string(&v).unwrap()), &v, cfg, &format!("{what} (JSON text)"))?;
         de_result_ok(Q::de_value(serde_json::to_value(&v).unwrap()), &v, cfg, &format!("{what} (Value)"))?;
         de_result_ok(Q::de_map(v.clone()), &v, cfg, &format!("{what} (MapDeserializer)"))?;
+        for hint in [0usize, 1, len / 2, len + 3] {
+            de_result_ok(Q::de_hinted(v.clone(), hint), &v, cfg, &format!("{what} (sequence announcing {hint} elements)"))?;
+        }
+    }
+    for hint in [0usize, 2, long.len() / 2, long.len() + 1000] {
+        de_result_ok(Q::de_hinted(long.clone(), hint), &long, cfg, &format!("long pair sequence with repeats (sequence announcing {hint} elements)"))?;
     }
     Ok(())
 }
